@@ -4,6 +4,8 @@
 #include "mc/mc.hpp"
 #include "mc/faults.hpp"
 #include "checks/prt_common.hpp"
+#include <array>
+#include "Stream/MemoryWriter.h"
 #include "Stream/FileReader.h"
 #include <memory>
 #include <set>
@@ -103,6 +105,12 @@ void writerRefusals(Ctx& ctx)
 		ctx.transition(); ctx.count("writer-refusals/attempts");
 		if (o.cls == 'R') ctx.violation(std::string("C10/writer/") + clause, key, "written although " + prtc::rules(a));
 		else if (prtc::dump(a) != before) ctx.violation("C10/writer/refusal-altered-the-object", key, "");
+		// the file-name overload refuses as well
+		std::string path = ctx.scratch() + "/refused.prt";
+		auto of = mc::guarded([&] { a.Write(path); });
+		ctx.transition();
+		if (of.cls == 'R') ctx.violation(std::string("C10/writer/") + clause, key + " (file-name overload)", "Write(filename) returned normally although " + prtc::rules(a));
+		else if (prtc::dump(a) != before) ctx.violation("C10/writer/refusal-altered-the-object", key + " (file-name overload)", "");
 	};
 	for (uint16_t idx : { uint16_t(1), uint16_t(2), uint16_t(0xFFFF) }) { ArtFile a = good; a.imageMetas[0].paletteIndex = idx; expectThrow("palette index " + std::to_string(idx) + " with 1 palette", a, "accepted-palette-index-out-of-range"); }
 	{ ArtFile a = good; a.palettes.clear(); expectThrow("image present, no palettes", a, "accepted-palette-index-out-of-range"); }
@@ -113,11 +121,47 @@ void writerRefusals(Ctx& ctx)
 	}
 	for (uint32_t w : { 0xFFFFFFFDu, 0xFFFFFFFEu, 0xFFFFFFFFu }) { ArtFile a = good; a.imageMetas[0].width = w; a.imageMetas[0].scanLineByteWidth = 0; expectThrow("width " + std::to_string(w) + " scan line 0 (rounded width does not fit 32 bits)", a, "accepted-scan-line-not-rounded-width"); }
 	for (int listLen : { 0, 2, 3, 129, 257, 385, 1 + 128 * 16 }) { ArtFile a = good; a.animations[0].frames[0].layers.resize(listLen); expectThrow("frame count 1 with " + std::to_string(listLen) + " layers", a, "accepted-layer-list-count-mismatch"); }
+	// two frames whose mismatches cancel in the header totals
+	{
+		std::vector<int> z2(prtc::kDims, 0); z2[5] = 2;
+		ArtFile two = prtc::readArt(ref::encodePrt(prtc::makePrt(z2)));
+		if (!two.animations.empty() && two.animations[0].frames.size() >= 2) for (auto pr : std::vector<std::array<int, 4>>{ { 1, 3, 3, 1 }, { 0, 2, 2, 0 }, { 2, 1, 1, 2 } }) {
+			ArtFile a = two;
+			a.animations[0].frames[0].layerMetadata.count = uint8_t(pr[0]); a.animations[0].frames[0].layers.resize(std::size_t(pr[1]));
+			a.animations[0].frames[1].layerMetadata.count = uint8_t(pr[2]); a.animations[0].frames[1].layers.resize(std::size_t(pr[3]));
+			expectThrow("two frames: count " + std::to_string(pr[0]) + "/" + std::to_string(pr[1]) + " layers and count " + std::to_string(pr[2]) + "/" + std::to_string(pr[3]) + " layers (sums agree)", a, "accepted-layer-list-count-mismatch");
+		}
+	}
 	// 7-bit count field: list lengths congruent to the count modulo 128 are mismatches too
 	for (int count : { 0, 2, 127 }) for (int k : { 1, 2, 3 }) {
 		ArtFile a = good; a.animations[0].frames[0].layerMetadata.count = uint8_t(count); a.animations[0].frames[0].layers.resize(std::size_t(count + 128 * k));
 		expectThrow("frame count " + std::to_string(count) + " with " + std::to_string(count + 128 * k) + " layers (equal modulo 128)", a, "accepted-layer-list-count-mismatch");
 	}
+	ctx.state(); ctx.trace();
+}
+
+// a write that fails half-way (destination of every capacity below the full length) never alters the in-memory object,
+// and a following write into a large enough destination gives the normal bytes
+void failingWrites(Ctx& ctx)
+{
+	std::vector<int> cfg(prtc::kDims, 0);
+	cfg[0] = 2; cfg[1] = 2; cfg[4] = 2; cfg[5] = 2; cfg[6] = 3; cfg[7] = 2;
+	ArtFile a = prtc::readArt(ref::encodePrt(prtc::makePrt(cfg)));
+	const std::string before = prtc::dump(a);
+	const auto full = prtc::writeArt(a);
+	uint64_t n = 0;
+	for (std::size_t cap = 0; cap < full.size(); ++cap) {
+		if ((cap & 63) == 0) ctx.sub("Write into a fixed destination of " + std::to_string(cap) + " of " + std::to_string(full.size()) + " bytes");
+		std::unique_ptr<uint8_t[]> dst(new uint8_t[cap ? cap : 1]);
+		Stream::MemoryWriter w(dst.get(), cap);
+		auto o = mc::guarded([&] { a.Write(w); });
+		ctx.transition(); ++n;
+		if (o.cls == 'R') { ctx.violation("C10/writer/wrote-more-than-the-destination-holds", "capacity " + std::to_string(cap), ""); return; }
+		if (o.cls == 'X') { ctx.violation("C10/writer/non-std-exception", "capacity " + std::to_string(cap), ""); return; }
+		if (prtc::dump(a) != before) { ctx.violation("C10/writer/failed-write-altered-the-object", "Write into a destination of " + std::to_string(cap) + " bytes (full length " + std::to_string(full.size()) + ")", ""); return; }
+		if ((cap % 97) == 0 && prtc::writeArt(a) != full) { ctx.violation("C10/writer/write-after-failed-write-differs", "capacity " + std::to_string(cap), ""); return; }
+	}
+	ctx.count("writer/failing-writes", n);
 	ctx.state(); ctx.trace();
 }
 
@@ -171,6 +215,7 @@ void runCase(std::size_t i, Ctx& ctx)
 	}
 	std::size_t k = i - nChunks();
 	if (k == 0) writerRefusals(ctx);
+	else if (k == 5) failingWrites(ctx);
 	else corruptions(ctx, int(k - 1));
 }
 
@@ -181,7 +226,7 @@ int main(int argc, char** argv)
 	mc::CheckDef def;
 	def.id = "C10";
 	def.init = enumerate;
-	def.ncases = [](Ctx&) { return nChunks() + 5; };
+	def.ncases = [](Ctx&) { return nChunks() + 6; };
 	def.run = runCase;
 	def.caseTimeoutS = 300;
 	return mc::Main(argc, argv, def);
